@@ -1103,6 +1103,12 @@ func (g *gen) genOp(kind string) *op {
 		// the same clause on the insert paths (struct records): INSERT ... RETURNING read back with Scan
 		if r.Chance(1, 5) {
 			g.genReturning(o)
+			if kind == "create-batches" && o.returning == "all" && !genBatchReturningAll {
+				o.returning = "cols"
+				for _, f := range m.pks {
+					o.retCols = append(o.retCols, f.idx)
+				}
+			}
 		}
 		if (kind == "create" || kind == "create-slice" || kind == "create-batches") && r.Chance(1, 4) {
 			o.next = g.followUpCreate(o)
@@ -1132,6 +1138,12 @@ func updateKind(kind string) bool {
 	}
 	return false
 }
+
+// genBatchReturningAll: CreateInBatches under Clauses(clause.Returning{}) (all columns) panics in
+// gorm.Scan (reflect.Value.SetLen using unaddressable value: the batch is handed over as a
+// non-addressable sub-slice and RETURNING * resets the destination slice) before anything is
+// written: a read-back matter, not a write-set one; see Engine.Assumptions. Not generated.
+const genBatchReturningAll = false
 
 func createStructKind(kind string) bool {
 	switch kind {
